@@ -69,7 +69,11 @@ pub struct Case {
 fn encode_headers(hs: &[CtlHeader]) -> Vec<u8> {
     let mut out = vec![];
     for h in hs {
-        let (g, v) = if h.kind == 0 { (12u8, 1u8) } else { (41u8, h.kind.min(4)) };
+        let (g, v) = if h.kind == 0 {
+            (12u8, 1u8)
+        } else {
+            (41u8, h.kind.min(4))
+        };
         let obj = |p: u8| -> Vec<u8> {
             match h.kind {
                 0 => ra::crob(3 + (p % 2), 1, 100 + p as u32, 50, 0),
@@ -96,16 +100,32 @@ fn encode_headers(hs: &[CtlHeader]) -> Vec<u8> {
             }
         };
         if h.two_byte {
-            out.extend(ra::h_prefixed16(g, v, &h.objs.iter().map(|(i, p)| (*i as u16, obj(*p))).collect::<Vec<_>>()));
+            out.extend(ra::h_prefixed16(
+                g,
+                v,
+                &h.objs
+                    .iter()
+                    .map(|(i, p)| (*i as u16, obj(*p)))
+                    .collect::<Vec<_>>(),
+            ));
         } else {
-            out.extend(ra::h_prefixed8(g, v, &h.objs.iter().map(|(i, p)| (*i, obj(*p))).collect::<Vec<_>>()));
+            out.extend(ra::h_prefixed8(
+                g,
+                v,
+                &h.objs
+                    .iter()
+                    .map(|(i, p)| (*i, obj(*p)))
+                    .collect::<Vec<_>>(),
+            ));
         }
     }
     out
 }
 
 fn indices(hs: &[CtlHeader]) -> Vec<u16> {
-    hs.iter().flat_map(|h| h.objs.iter().map(|(i, _)| *i as u16)).collect()
+    hs.iter()
+        .flat_map(|h| h.objs.iter().map(|(i, _)| *i as u16))
+        .collect()
 }
 
 #[derive(Clone, Debug)]
@@ -144,9 +164,19 @@ impl Prop for Sbo {
         ]
     }
     fn strategy(tier: Tier) -> BoxedStrategy<Case> {
-        let header = (0u8..5, any::<bool>(), proptest::collection::vec((0u8..6, any::<u8>()), 1..=3)).prop_map(|(kind, two_byte, objs)| CtlHeader { kind, two_byte, objs });
+        let header = (
+            0u8..5,
+            any::<bool>(),
+            proptest::collection::vec((0u8..6, any::<u8>()), 1..=3),
+        )
+            .prop_map(|(kind, two_byte, objs)| CtlHeader {
+                kind,
+                two_byte,
+                objs,
+            });
         let headers = proptest::collection::vec(header, 1..=3);
-        let seqm = prop_oneof![4 => Just(SeqMode::Next), 1 => any::<u8>().prop_map(SeqMode::Arbitrary)];
+        let seqm =
+            prop_oneof![4 => Just(SeqMode::Next), 1 => any::<u8>().prop_map(SeqMode::Arbitrary)];
         let variant = prop_oneof![
             6 => Just(OpVariant::Same),
             1 => any::<u16>().prop_map(OpVariant::OneByteChanged),
@@ -239,7 +269,8 @@ async fn run_case(case: &Case) -> CaseOut {
                 let objects = encode_headers(hs);
                 let frag = Fragment::request(s, func::SELECT, objects.clone()).encode();
                 // a byte-identical retransmission of the armed SELECT keeps it armed
-                let is_repeat_of_armed = armed.as_ref().map(|a| a.fragment == frag).unwrap_or(false);
+                let is_repeat_of_armed =
+                    armed.as_ref().map(|a| a.fragment == frag).unwrap_or(false);
                 rig.send_fragment(&frag);
                 rig.settle().await;
                 last_select_headers = Some(hs.clone());
@@ -251,25 +282,47 @@ async fn run_case(case: &Case) -> CaseOut {
                     armed.as_mut().unwrap().t_last = now;
                 } else {
                     let idx = indices(hs);
-                    let all_ok = idx.iter().all(|i| status_of(*i) == 0) && case.max_controls.map(|m| idx.len() <= m as usize).unwrap_or(true);
+                    let all_ok = idx.iter().all(|i| status_of(*i) == 0)
+                        && case
+                            .max_controls
+                            .map(|m| idx.len() <= m as usize)
+                            .unwrap_or(true);
                     disarm!("intervening");
                     let t_first = match &last_good_select {
                         Some((a, _)) if a.fragment == frag => a.t_first,
                         _ => now,
                     };
                     if all_ok {
-                        armed = Some(Armed { seq: s, objects, fragment: frag, t_first, t_last: now });
+                        armed = Some(Armed {
+                            seq: s,
+                            objects,
+                            fragment: frag,
+                            t_first,
+                            t_last: now,
+                        });
                         last_good_select = None;
                     } else {
                         out.label("select_failed");
                         // remember it as the SELECT a following OPERATE would have matched, had it succeeded
-                        last_good_select = Some((Armed { seq: s, objects, fragment: frag, t_first: now, t_last: now }, vec!["select_failed"]));
+                        last_good_select = Some((
+                            Armed {
+                                seq: s,
+                                objects,
+                                fragment: frag,
+                                t_first: now,
+                                t_last: now,
+                            },
+                            vec!["select_failed"],
+                        ));
                     }
                 }
                 // a SELECT never actuates anything
                 let log = rig.shared.take_log();
                 if log.iter().any(|(_, cb)| matches!(cb, Cb::Operate(..))) {
-                    out.fail(Fail::new("select-actuated", "a SELECT request reached ControlHandler::operate"));
+                    out.fail(Fail::new(
+                        "select-actuated",
+                        "a SELECT request reached ControlHandler::operate",
+                    ));
                 }
             }
             Op::BadSelect(sm) => {
@@ -292,14 +345,26 @@ async fn run_case(case: &Case) -> CaseOut {
                 disarm!("intervening");
             }
             Op::Operate(variant, sm) => {
-                let base = last_select_headers.clone().unwrap_or_else(|| vec![CtlHeader { kind: 0, two_byte: false, objs: vec![(0, 0)] }]);
+                let base = last_select_headers.clone().unwrap_or_else(|| {
+                    vec![CtlHeader {
+                        kind: 0,
+                        two_byte: false,
+                        objs: vec![(0, 0)],
+                    }]
+                });
                 let (hs, mut objects) = match variant {
-                    OpVariant::Same | OpVariant::OneByteChanged(_) => (base.clone(), encode_headers(&base)),
+                    OpVariant::Same | OpVariant::OneByteChanged(_) => {
+                        (base.clone(), encode_headers(&base))
+                    }
                     OpVariant::SplitDifferently => {
                         let mut split = vec![];
                         for h in &base {
                             for o in &h.objs {
-                                split.push(CtlHeader { kind: h.kind, two_byte: h.two_byte, objs: vec![*o] });
+                                split.push(CtlHeader {
+                                    kind: h.kind,
+                                    two_byte: h.two_byte,
+                                    objs: vec![*o],
+                                });
                             }
                         }
                         let b = encode_headers(&split);
@@ -342,15 +407,31 @@ async fn run_case(case: &Case) -> CaseOut {
                         let el_last = now - a.t_last;
                         let in_time = el_first < SELECT_TIMEOUT;
                         // retransmitted SELECT: the statement does not say from which transmission the timeout runs
-                        let unc = el_first == SELECT_TIMEOUT || (el_first > SELECT_TIMEOUT && el_last <= SELECT_TIMEOUT);
-                        let misses: Vec<&'static str> = [(!bytes_ok, "bytes"), (!seq_ok, "seq"), (!in_time && !unc, "timeout")].iter().filter(|x| x.0).map(|x| x.1).collect();
-                        (bytes_ok && seq_ok && in_time, unc && bytes_ok && seq_ok, misses)
+                        let unc = el_first == SELECT_TIMEOUT
+                            || (el_first > SELECT_TIMEOUT && el_last <= SELECT_TIMEOUT);
+                        let misses: Vec<&'static str> = [
+                            (!bytes_ok, "bytes"),
+                            (!seq_ok, "seq"),
+                            (!in_time && !unc, "timeout"),
+                        ]
+                        .iter()
+                        .filter(|x| x.0)
+                        .map(|x| x.1)
+                        .collect();
+                        (
+                            bytes_ok && seq_ok && in_time,
+                            unc && bytes_ok && seq_ok,
+                            misses,
+                        )
                     }
                     None => {
                         let mut misses = vec![];
                         if let Some((a, why)) = &last_good_select {
                             // would have matched but for exactly the recorded reason(s)?
-                            if a.objects == objects && s == (a.seq + 1) & 0x0F && now - a.t_first < SELECT_TIMEOUT {
+                            if a.objects == objects
+                                && s == (a.seq + 1) & 0x0F
+                                && now - a.t_first < SELECT_TIMEOUT
+                            {
                                 misses = why.clone();
                             } else {
                                 misses = vec!["several"];
@@ -383,12 +464,19 @@ async fn run_case(case: &Case) -> CaseOut {
                     .filter(|f| f.func == func::RESPONSE && f.seq == s)
                     .flat_map(|f| f.headers().unwrap_or_default())
                     .filter(|h| h.g == 12 || h.g == 41)
-                    .flat_map(|h| h.objects.into_iter().map(|o| *o.data.last().unwrap_or(&0xFF)))
+                    .flat_map(|h| {
+                        h.objects
+                            .into_iter()
+                            .map(|o| *o.data.last().unwrap_or(&0xFF))
+                    })
                     .collect();
                 if is_repeat_of_last {
                     // a byte-identical repeat of the previous request is C05's business: it must not execute
                     if !executed.is_empty() {
-                        out.fail(Fail::new("repeat-executed", "a byte-identical repeat of the previous OPERATE was executed again"));
+                        out.fail(Fail::new(
+                            "repeat-executed",
+                            "a byte-identical repeat of the previous OPERATE was executed again",
+                        ));
                     }
                 } else if !uncertain {
                     let want: Vec<u16> = if expect { indices(&hs) } else { vec![] };
@@ -402,15 +490,39 @@ async fn run_case(case: &Case) -> CaseOut {
                             want
                         );
                         out.fail(
-                            Fail::new(if expect { "matching-operate-not-executed" } else { "operate-executed-without-valid-select" }, d)
-                                .with_sig(format!("C04 {} why={:?}", if expect { "not-executed" } else { "executed" }, near)),
+                            Fail::new(
+                                if expect {
+                                    "matching-operate-not-executed"
+                                } else {
+                                    "operate-executed-without-valid-select"
+                                },
+                                d,
+                            )
+                            .with_sig(format!(
+                                "C04 {} why={:?}",
+                                if expect { "not-executed" } else { "executed" },
+                                near
+                            )),
                         );
                     }
                     if !expect && echo_statuses.iter().any(|x| *x == 0) {
-                        out.fail(Fail::new("refused-operate-echoes-success", format!("OPERATE without valid SELECT answered with statuses {:?}", echo_statuses)));
+                        out.fail(Fail::new(
+                            "refused-operate-echoes-success",
+                            format!(
+                                "OPERATE without valid SELECT answered with statuses {:?}",
+                                echo_statuses
+                            ),
+                        ));
                     }
-                    if expect && (echo_statuses.is_empty() || echo_statuses.iter().any(|x| *x != 0)) {
-                        out.fail(Fail::new("executed-operate-echo", format!("executed OPERATE answered with statuses {:?}", echo_statuses)));
+                    if expect && (echo_statuses.is_empty() || echo_statuses.iter().any(|x| *x != 0))
+                    {
+                        out.fail(Fail::new(
+                            "executed-operate-echo",
+                            format!(
+                                "executed OPERATE answered with statuses {:?}",
+                                echo_statuses
+                            ),
+                        ));
                     }
                 } else {
                     out.label("timeout_instant_not_judged");
@@ -425,7 +537,8 @@ async fn run_case(case: &Case) -> CaseOut {
             }
             Op::DirectOperate(hs) => {
                 seq = (seq + 1) & 0x0F;
-                let frag = Fragment::request(seq, func::DIRECT_OPERATE, encode_headers(hs)).encode();
+                let frag =
+                    Fragment::request(seq, func::DIRECT_OPERATE, encode_headers(hs)).encode();
                 rig.send_fragment(&frag);
                 rig.settle().await;
                 last_fragment = Some(frag);
@@ -441,7 +554,8 @@ async fn run_case(case: &Case) -> CaseOut {
             }
             Op::Write => {
                 seq = (seq + 1) & 0x0F;
-                let frag = Fragment::request(seq, func::WRITE, ra::h_range8(80, 1, 7, 7, &[0])).encode();
+                let frag =
+                    Fragment::request(seq, func::WRITE, ra::h_range8(80, 1, 7, 7, &[0])).encode();
                 rig.send_fragment(&frag);
                 rig.settle().await;
                 last_fragment = Some(frag);
@@ -492,17 +606,29 @@ async fn run_case(case: &Case) -> CaseOut {
             }
             Op::RepeatLast => {
                 if let Some(f) = last_fragment.clone() {
-                    let is_repeat_of_armed = armed.as_ref().map(|a| a.fragment == f).unwrap_or(false);
+                    let is_repeat_of_armed =
+                        armed.as_ref().map(|a| a.fragment == f).unwrap_or(false);
                     rig.send_fragment(&f);
                     rig.settle().await;
                     if is_repeat_of_armed {
                         out.label("select_retransmitted");
                         armed.as_mut().unwrap().t_last = rig.now_ms();
-                    } else if f.len() >= 2 && f[1] == func::SELECT && f[0] & 0xC0 == 0xC0 && last_fragment_select.as_ref().map(|h| encode_headers(h) == f[2..]).unwrap_or(false) {
+                    } else if f.len() >= 2
+                        && f[1] == func::SELECT
+                        && f[0] & 0xC0 == 0xC0
+                        && last_fragment_select
+                            .as_ref()
+                            .map(|h| encode_headers(h) == f[2..])
+                            .unwrap_or(false)
+                    {
                         // a SELECT received again after other (non-request) fragments is a SELECT in its own right
                         let hs = last_fragment_select.clone().unwrap_or_default();
                         let idx = indices(&hs);
-                        let all_ok = idx.iter().all(|i| status_of(*i) == 0) && case.max_controls.map(|m| idx.len() <= m as usize).unwrap_or(true);
+                        let all_ok = idx.iter().all(|i| status_of(*i) == 0)
+                            && case
+                                .max_controls
+                                .map(|m| idx.len() <= m as usize)
+                                .unwrap_or(true);
                         disarm!("intervening");
                         let now = rig.now_ms();
                         // if the outstation regards it as a retransmission the timeout may still run from the first one
@@ -511,14 +637,23 @@ async fn run_case(case: &Case) -> CaseOut {
                             _ => now,
                         };
                         if all_ok && !idx.is_empty() {
-                            armed = Some(Armed { seq: f[0] & 0x0F, objects: f[2..].to_vec(), fragment: f.clone(), t_first, t_last: now });
+                            armed = Some(Armed {
+                                seq: f[0] & 0x0F,
+                                objects: f[2..].to_vec(),
+                                fragment: f.clone(),
+                                t_first,
+                                t_last: now,
+                            });
                             last_good_select = None;
                         }
                     } else {
                         disarm!("intervening");
                     }
                     let log = rig.shared.take_log();
-                    if f.len() >= 2 && f[1] != func::READ && log.iter().any(|(_, cb)| matches!(cb, Cb::Operate(..))) {
+                    if f.len() >= 2
+                        && f[1] != func::READ
+                        && log.iter().any(|(_, cb)| matches!(cb, Cb::Operate(..)))
+                    {
                         // repeated OPERATE / DIRECT_OPERATE must not actuate again (also C05)
                         out.fail(Fail::new("repeat-executed", "a byte-identical repeat of the previous request actuated a control again"));
                     }
@@ -544,8 +679,17 @@ async fn run_case(case: &Case) -> CaseOut {
         // nothing but OPERATE may reach operate(SelectBeforeOperate)
         if !matches!(op, Op::Operate(..) | Op::RepeatLast) {
             let log = rig.shared.take_log();
-            if log.iter().any(|(_, cb)| matches!(cb, Cb::Operate(_, _, ty) if ty == "SelectBeforeOperate")) {
-                out.fail(Fail::new("sbo-operate-from-non-operate", format!("{:?} led to ControlHandler::operate(SelectBeforeOperate)", op)));
+            if log
+                .iter()
+                .any(|(_, cb)| matches!(cb, Cb::Operate(_, _, ty) if ty == "SelectBeforeOperate"))
+            {
+                out.fail(Fail::new(
+                    "sbo-operate-from-non-operate",
+                    format!(
+                        "{:?} led to ControlHandler::operate(SelectBeforeOperate)",
+                        op
+                    ),
+                ));
             }
         }
     }
